@@ -71,4 +71,192 @@ theorem xNorth_net (σ : Net ℝ) (ob : NObs ℝ) (u : Unk) (t : ℝ) : ((σ.bum
 theorem value_net (σ : Net ℝ) (ob : NObs ℝ) (u : Unk) (t : ℝ) : ((σ.bumpU u t).view ob).value = (σ.view ob).value := by
   obtain ⟨id, c⟩ := u; cases c <;> rfl
 
+/-! ### derivative formulas for arbitrary velocities of the difference vectors -/
+
+theorem hdist_gen (m : ℝ → Obs ℝ) (o : Obs ℝ) (a b : ℝ) (hX : ∀ t, dX (m t) = dX o + a * t)
+    (hY : ∀ t, dY (m t) = dY o + b * t) (h : hdist o ≠ 0) :
+    HasDerivAt (fun t => MM * hdist (m t)) (MM * ((dX o * a + dY o * b) / hdist o)) 0 := by
+  have := (hasDerivAt_norm2 (dX o) (dY o) a b (hdist_sq_ne h)).const_mul MM
+  simpa only [hdist, hX, hY] using this
+
+theorem sdist_gen (m : ℝ → Obs ℝ) (o : Obs ℝ) (a b c : ℝ) (hX : ∀ t, dX (m t) = dX o + a * t)
+    (hY : ∀ t, dY (m t) = dY o + b * t) (hZ : ∀ t, dZ (m t) = dZ o + c * t) (h : sdist o ≠ 0) :
+    HasDerivAt (fun t => MM * sdist (m t)) (MM * ((dX o * a + dY o * b + dZ o * c) / sdist o)) 0 := by
+  have := (hasDerivAt_norm3 (dX o) (dY o) (dZ o) a b c (sdist_sq_ne h)).const_mul MM
+  simpa only [sdist, hX, hY, hZ] using this
+
+theorem bearing_gen (m : ℝ → Obs ℝ) (o : Obs ℝ) (a b : ℝ) (hX : ∀ t, dX (m t) = dX o + a * t)
+    (hY : ∀ t, dY (m t) = dY o + b * t) (h : hdist o ≠ 0) (off : Obs ℝ → ℝ) (vo : ℝ)
+    (hoff : ∀ t, off (m t) = off o + vo * t) :
+    ∃ θ : ℝ → ℝ, θ 0 = brg (dX o) (dY o) ∧ (∀ t, IsPolarAngle (dX (m t)) (dY (m t)) (θ t)) ∧
+      HasDerivAt (fun t => R2CC * (θ t - off (m t)))
+        (R2CC * ((dX o * b - dY o * a) / (hdist o * hdist o) - vo)) 0 := by
+  obtain ⟨θ, h0, hp, hd⟩ := exists_polar_lift (dX o) (dY o) a b (hdist_sq_ne h)
+  refine ⟨θ, h0, ?_, ?_⟩
+  · intro t; simpa only [hX, hY] using hp t
+  · simp only [hoff]
+    rw [hdist_mul_self]
+    exact (hd.sub (hasDerivAt_line (off o) vo)).const_mul R2CC
+
+theorem angle_gen (m : ℝ → Obs ℝ) (o : Obs ℝ) (a b a2 b2 : ℝ) (hX : ∀ t, dX (m t) = dX o + a * t)
+    (hY : ∀ t, dY (m t) = dY o + b * t) (hX2 : ∀ t, dX2 (m t) = dX2 o + a2 * t)
+    (hY2 : ∀ t, dY2 (m t) = dY2 o + b2 * t) (h : hdist o ≠ 0) (h' : hdist2 o ≠ 0) :
+    ∃ θ₁ θ₂ : ℝ → ℝ, θ₁ 0 = brg (dX o) (dY o) ∧ θ₂ 0 = brg (dX2 o) (dY2 o) ∧
+      (∀ t, IsPolarAngle (dX (m t)) (dY (m t)) (θ₁ t)) ∧ (∀ t, IsPolarAngle (dX2 (m t)) (dY2 (m t)) (θ₂ t)) ∧
+      HasDerivAt (fun t => R2CC * (θ₂ t - θ₁ t))
+        (R2CC * ((dX2 o * b2 - dY2 o * a2) / (hdist2 o * hdist2 o) - (dX o * b - dY o * a) / (hdist o * hdist o))) 0 := by
+  obtain ⟨θ₁, a0, ap, ad⟩ := exists_polar_lift (dX o) (dY o) a b (hdist_sq_ne h)
+  obtain ⟨θ₂, b0, bp, bd⟩ := exists_polar_lift (dX2 o) (dY2 o) a2 b2 (hdist2_sq_ne h')
+  refine ⟨θ₁, θ₂, a0, b0, ?_, ?_, ?_⟩
+  · intro t; simpa only [hX, hY] using ap t
+  · intro t; simpa only [hX2, hY2] using bp t
+  · rw [hdist_mul_self, hdist2_mul_self]
+    exact (bd.sub ad).const_mul R2CC
+
+theorem zenith_gen (m : ℝ → Obs ℝ) (o : Obs ℝ) (a b c : ℝ) (hX : ∀ t, dX (m t) = dX o + a * t)
+    (hY : ∀ t, dY (m t) = dY o + b * t) (hZ : ∀ t, dZ (m t) = dZ o + c * t) (h : hdist o ≠ 0) :
+    HasDerivAt (fun t => R2CC * zenith (m t))
+      (R2CC * (-c / hdist o + dZ o * (dX o * a + dY o * b + dZ o * c) / (hdist o * (sdist o * sdist o)))) 0 := by
+  have hs : sdist o ≠ 0 := sdist_ne_of_hdist_ne h
+  have hdp : 0 < hdist o := lt_of_le_of_ne (hdist_nonneg o) (Ne.symm h)
+  have hsp : 0 < sdist o := lt_of_le_of_ne (sdist_nonneg o) (Ne.symm hs)
+  have hN := hasDerivAt_norm3 (dX o) (dY o) (dZ o) a b c (sdist_sq_ne hs)
+  have hZ' := hasDerivAt_line (dZ o) c
+  have hu := hZ'.div hN (by simpa [sdist] using hs)
+  have hlt : dZ o * dZ o < sdist o * sdist o := by rw [sdist_sq_eq]; nlinarith [mul_pos hdp hdp]
+  have habs : |dZ o| < sdist o := abs_lt_of_sq_lt_sq' (by simpa [sq] using hlt) hsp.le |> fun ⟨a, b⟩ => abs_lt.mpr ⟨a, b⟩
+  have hu0 : (dZ o + c * 0) / Real.sqrt ((dX o + a * 0) * (dX o + a * 0) +
+      (dY o + b * 0) * (dY o + b * 0) + (dZ o + c * 0) * (dZ o + c * 0)) = dZ o / sdist o := by
+    simp [sdist]
+  have h1 : dZ o / sdist o ≠ -1 := by
+    intro e; rw [div_eq_iff hs] at e; have := abs_lt.mp habs; linarith
+  have h2 : dZ o / sdist o ≠ 1 := by
+    intro e; rw [div_eq_iff hs] at e; have := abs_lt.mp habs; linarith
+  have hac := (Real.hasDerivAt_arccos (x := dZ o / sdist o) h1 h2)
+  have hcomp := (hu0 ▸ hac).comp (0:ℝ) hu
+  have hsqrt : Real.sqrt (1 - (dZ o / sdist o) ^ 2) = hdist o / sdist o := by
+    have : 1 - (dZ o / sdist o) ^ 2 = (hdist o / sdist o) ^ 2 := by
+      field_simp
+      have := sdist_sq_eq o
+      nlinarith
+    rw [this, Real.sqrt_sq (div_nonneg hdp.le hsp.le)]
+  have hfin := hcomp.const_mul R2CC
+  have hfun : (fun t => R2CC * zenith (m t)) =
+      fun t => R2CC * (Real.arccos ∘ fun t => (dZ o + c * t) / Real.sqrt ((dX o + a * t) * (dX o + a * t) +
+      (dY o + b * t) * (dY o + b * t) + (dZ o + c * t) * (dZ o + c * t))) t := by
+    funext t
+    simp only [zenith, sdist, hX, hY, hZ, Function.comp]
+  rw [hfun]
+  refine hfin.congr_deriv ?_
+  simp only [mul_zero, add_zero]
+  have e3 : Real.sqrt (dX o * dX o + dY o * dY o + dZ o * dZ o) = sdist o := rfl
+  rw [e3, hsqrt]
+  have hss := sdist_sq_eq o
+  field_simp
+  nlinarith [hss]
+
+theorem zenithComputed_gen (m : ℝ → Obs ℝ) (o : Obs ℝ) (v : ℝ) (hv : ∀ t, (m t).value = o.value)
+    (h : HasDerivAt (fun t => R2CC * zenith (m t)) v 0) :
+    HasDerivAt (fun t => R2CC * zenithComputed (m t)) (zsign o * v) 0 := by
+  by_cases hp : π < o.value
+  · have e : (fun t => R2CC * zenithComputed (m t)) = fun t => R2CC * (2 * π) - R2CC * zenith (m t) := by
+      funext t; simp [zenithComputed, hv, hp]; ring
+    rw [e]
+    simpa [zsign, hp] using h.const_sub (R2CC * (2 * π))
+  · simpa [zenithComputed, hv, hp, zsign] using h
+
+theorem affine_gen (F : Obs ℝ → ℝ) (m : ℝ → Obs ℝ) (o : Obs ℝ) (v : ℝ) (hF : ∀ t, F (m t) = F o + v * t) :
+    HasDerivAt (fun t => MM * F (m t)) (MM * v) 0 := by
+  simp only [hF]
+  exact (hasDerivAt_line (F o) v).const_mul MM
+
+/-! ### the statement: derivative of a row wrt an unknown of the network -/
+
+/-- `v` = ∂(unit · F(row))/∂u at the linearisation point, `u` any unknown of the network -/
+def NetPartial (unit : ℝ) (F : Obs ℝ → ℝ) (σ : Net ℝ) (ob : NObs ℝ) (u : Unk) (v : ℝ) : Prop :=
+  HasDerivAt (fun t => unit * F ((σ.bumpU u t).view ob)) v 0
+
+/-- the same for `θ(from → to) − off` with any differentiable polar angle `θ` starting at the code's bearing -/
+def NetPartialBearing (off : Obs ℝ → ℝ) (σ : Net ℝ) (ob : NObs ℝ) (u : Unk) (v : ℝ) : Prop :=
+  ∃ θ : ℝ → ℝ, θ 0 = brg (dX (σ.view ob)) (dY (σ.view ob)) ∧
+    (∀ t, IsPolarAngle (dX ((σ.bumpU u t).view ob)) (dY ((σ.bumpU u t).view ob)) (θ t)) ∧
+    HasDerivAt (fun t => R2CC * (θ t - off ((σ.bumpU u t).view ob))) v 0
+
+/-- the same for the angle `θ₂(from → fs) − θ₁(from → bs)` -/
+def NetPartialAngle (σ : Net ℝ) (ob : NObs ℝ) (u : Unk) (v : ℝ) : Prop :=
+  ∃ θ₁ θ₂ : ℝ → ℝ, θ₁ 0 = brg (dX (σ.view ob)) (dY (σ.view ob)) ∧ θ₂ 0 = brg (dX2 (σ.view ob)) (dY2 (σ.view ob)) ∧
+    (∀ t, IsPolarAngle (dX ((σ.bumpU u t).view ob)) (dY ((σ.bumpU u t).view ob)) (θ₁ t)) ∧
+    (∀ t, IsPolarAngle (dX2 ((σ.bumpU u t).view ob)) (dY2 ((σ.bumpU u t).view ob)) (θ₂ t)) ∧
+    HasDerivAt (fun t => R2CC * (θ₂ t - θ₁ t)) v 0
+
+/-- "`v` is the partial derivative of the observation function of a row of class `k` wrt the
+    unknown `u`, in gama's units" -/
+def RowDeriv : Kind → Net ℝ → NObs ℝ → Unk → ℝ → Prop
+  | .direction => NetPartialBearing (fun o => o.orientation)
+  | .azimuth => NetPartialBearing (fun o => o.xNorth)
+  | .distance => NetPartial MM hdist
+  | .angle => NetPartialAngle
+  | .s_distance => NetPartial MM sdist
+  | .z_angle => NetPartial R2CC zenithComputed
+  | .h_diff => NetPartial MM dZ
+  | .zdiff => NetPartial MM dZ
+  | .xdiff => NetPartial MM dX
+  | .ydiff => NetPartial MM dY
+  | .x => NetPartial MM fromX
+  | .y => NetPartial MM fromY
+  | .z => NetPartial MM fromZ
+
+/-- the exclusion of `bearing_distance` for the classes that call it (the others exclude by throwing) -/
+def Regular : Kind → Obs ℝ → Prop
+  | .direction | .distance | .azimuth => fun o => ¬ hdist o < CUT
+  | .angle => fun o => ¬ hdist o < CUT ∧ ¬ hdist2 o < CUT
+  | _ => fun _ => True
+
+/-! ### guarded blocks of pushes -/
+
+theorem symEntry_block2 (name : Role → Coord → Unk) (b : Bool) (r : Role) (c1 c2 : Coord) (v1 v2 : ℝ) (u : Unk)
+    (hb : name r c1 = u ∨ name r c2 = u → b = true) :
+    symEntry name (if b = true then [(r, c1, v1), (r, c2, v2)] else []) u =
+      (if name r c1 = u then v1 else 0) + (if name r c2 = u then v2 else 0) := by
+  cases b
+  · have h1 : ¬ name r c1 = u := fun h => by simpa using hb (Or.inl h)
+    have h2 : ¬ name r c2 = u := fun h => by simpa using hb (Or.inr h)
+    simp [h1, h2]
+  · simp
+
+theorem symEntry_block1 (name : Role → Coord → Unk) (b : Bool) (r : Role) (c1 : Coord) (v1 : ℝ) (u : Unk)
+    (hb : name r c1 = u → b = true) :
+    symEntry name (if b = true then [(r, c1, v1)] else []) u = (if name r c1 = u then v1 else 0) := by
+  cases b
+  · have h1 : ¬ name r c1 = u := fun h => by simpa using hb h
+    simp [h1]
+  · simp
+
+theorem isFree_xy {σ : Net ℝ} {i : Nat} {c : Coord} {u : Unk} (hf : σ.isFree u = true)
+    (h : (⟨i, .y⟩ : Unk) = u ∨ (⟨i, .x⟩ : Unk) = u) : (σ.pt i).free_xy = true := by
+  rcases h with rfl | rfl <;> exact hf
+theorem isFree_z {σ : Net ℝ} {i : Nat} {u : Unk} (hf : σ.isFree u = true)
+    (h : (⟨i, .z⟩ : Unk) = u) : (σ.pt i).free_z = true := by
+  subst h; exact hf
+theorem isFree_x1 {σ : Net ℝ} {i : Nat} {u : Unk} (hf : σ.isFree u = true)
+    (h : (⟨i, .x⟩ : Unk) = u) : (σ.pt i).free_xy = true := by
+  subst h; exact hf
+theorem isFree_y1 {σ : Net ℝ} {i : Nat} {u : Unk} (hf : σ.isFree u = true)
+    (h : (⟨i, .y⟩ : Unk) = u) : (σ.pt i).free_xy = true := by
+  subst h; exact hf
+
+/-! ### every class: the sum of the pushes for the roles naming `u` is the derivative wrt `u` -/
+
+theorem distance_row (σ : Net ℝ) (ob : NObs ℝ) (u : Unk) (fuel : Nat) (out : LinOut ℝ) (hf : σ.isFree u = true)
+    (h : ¬ hdist (σ.view ob) < CUT) (hok : Gen.Lin.distance fuel (σ.view ob) = .ok out) :
+    NetPartial MM hdist σ ob u (symEntry ob.name out.pushes u) := by
+  have hd := (hdist_pos_of_not_cut h).ne'
+  rw [distance_eq fuel _ h] at hok; injection hok with hok; subst hok
+  refine (hdist_gen (fun t => (σ.bumpU u t).view ob) (σ.view ob) _ _ (dX_net σ ob u) (dY_net σ ob u) hd).congr_deriv ?_
+  simp only [LinOut.pushes, pushes_append, pushes_ite, pushes_push, pushes_touch, pushes_nil, symEntry_append]
+  rw [symEntry_block2 _ _ _ _ _ _ _ _ (isFree_xy (c := .x) hf), symEntry_block2 _ _ _ _ _ _ _ _ (isFree_xy (c := .x) hf)]
+  obtain ⟨id, c⟩ := u
+  cases c <;> simp only [NObs.name, Unk.mk.injEq, reduceCtorEq, and_false, and_true, if_false, VX, VY, ind, MM] <;>
+    by_cases h1 : ob.pfrom = id <;> by_cases h2 : ob.pto = id <;> simp [h1, h2] <;> field_simp <;> ring
+
 end Gama.Lin
